@@ -22,7 +22,8 @@ func init() {
 			"(c) every call of DisconnectClient (which writes a DISCONNECT packet, a type MQTT 3 reserves for clients) is guarded by ProtocolVersion == 5 at the site or inside DisconnectClient; " +
 			"(d) in package packets every Properties.Encode call and the v5-only reason bytes are under pk.ProtocolVersion == 5 (AUTH is v5-only); " +
 			"(e) every connection write happens under the client's lock after the Maximum Packet Size test (C34.b); " +
-			"(f) Properties.Encode emits Reason String / User Properties only when problem information is allowed and Response Topic / Correlation Data / Response Information only when response information is allowed; WritePacket derives both from the CONNECT properties.",
+			"(f) Properties.Encode emits Reason String / User Properties only when problem information is allowed and Response Topic / Correlation Data / Response Information only when response information is allowed; WritePacket derives both from the CONNECT properties; " +
+			"(h) only WritePacket (and Packet.Copy) store into packets.Mods: per-connection limits are bound at write time and never travel with a packet kept in session state.",
 		NotDecided: []string{"actual byte streams", "Closed()-test / write check-then-act in WritePacket (nothing after DISCONNECT under a concurrent writer)", "wildcards in outbound topics (guaranteed by inbound validation, C17/C30)"},
 		Run:        runC23,
 	})
@@ -144,7 +145,9 @@ func runC23(c *Ctx) {
 	dc := c.fn("mqtt", "(*Server).DisconnectClient")
 	if dc != nil {
 		w := c.call1(dc, fnWritePacket)
-		inner := w != nil && dominatedByFact(w, func(t string) bool { return strings.Contains(t, "ProtocolVersion == 5") || strings.Contains(t, "ProtocolVersion < 5") }, true)
+		inner := w != nil && dominatedByFact(w, func(t string) bool {
+			return strings.Contains(t, "ProtocolVersion == 5") || strings.Contains(t, "ProtocolVersion < 5")
+		}, true)
 		if w != nil && dominatedByFact(w, func(t string) bool { return strings.Contains(t, "ProtocolVersion < 5") }, false) {
 			inner = true
 		}
@@ -258,7 +261,8 @@ func init() {
 		Technique: "panic-site enumeration over everything reachable from attachClient (module call graph) with the bounds prover of C27; size-limit-before-allocation ordering",
 		Explanation: "(a) attachClient and the listeners' handler goroutines have no recover, so every instruction that can panic on client-controlled data in module functions reachable from attachClient is an obligation: index/slice sites outside package packets (C27 covers the decoders) must be discharged by a dominating guard, by ranging over the indexed slice, by a tabled library contract (strings.IndexRune < len) or a tabled caller-side invariant with its reason; unchecked type assertions, divisions by non-constants and explicit panics are reported; " +
 			"(b) ReadFixedHeader compares the remaining length with MaximumPacketSize before it returns success, and ReadPacket's allocation of the body happens only after a successful ReadFixedHeader for the same header (in Read and readConnectionPacket); " +
-			"(c) the remaining-length loop is bounded (C29.b).",
+			"(c) the remaining-length loop is bounded (C29.b); " +
+			"(e) a pointer obtained from a (pointer, found) lookup of the module (Clients.Get …) is dereferenced only on the found edge — in every function of the root package, including the event loop.",
 		NotDecided: []string{"resource exhaustion other than the single allocation", "quality of service for other clients", "panics inside third-party libraries and external hooks"},
 		Run:        runC28,
 	})
